@@ -214,6 +214,24 @@ func (db *DB) batchSet(entries []*kv.Entry) error {
 	return err
 }
 
+// batchSetRef is batchSet for callers that have taken one extra reference on every
+// entry on behalf of the write request. Once the request is enqueued it owns those
+// references and releases them when it has been processed, whether the write
+// succeeded or failed; if it cannot be enqueued they are released here. Callers
+// must not release them again on error.
+func (db *DB) batchSetRef(entries []*kv.Entry) error {
+	req, err := db.sendToWriteCh(entries, true)
+	if err != nil {
+		for _, e := range entries {
+			e.DecrRef()
+		}
+		return err
+	}
+	err = req.Wait()
+	verifhook.Yield(db, "db.write.acked")
+	return err
+}
+
 func (db *DB) enqueueCommitRequest(cr *commitRequest) error {
 	if cr == nil {
 		return nil
